@@ -329,10 +329,16 @@ class SSH_Socket(ReadBuf, WriteBuf):
         self.__banner = None
 
     def _close_socket(self, s: Optional[socket.socket]) -> None:
+        if s is None:
+            return
+
         try:
-            if s is not None:
-                s.shutdown(socket.SHUT_RDWR)
-                s.close()  # pragma: nocover
+            s.shutdown(socket.SHUT_RDWR)
+        except Exception:  # I.e.: ENOTCONN, when the peer has reset the connection; the socket must be closed all the same.
+            pass
+
+        try:
+            s.close()  # pragma: nocover
         except Exception:
             pass
 
